@@ -469,9 +469,17 @@ def bfs_services(depth, res, shard, only):
                 ntrans += 1
                 try:
                     svcs, calls = build([tuple(x) if x[0] == 'listen' else ('sub', tuple(x[1])) for x in h2])
+                    # every service is published by two applications (built one after the other over the same class) and
+                    # called through the first, the second and the first again
+                    plan = []
                     for i, sv in enumerate(svcs):
-                        app = Application([sv], tns=TNS, name='A%d' % i, in_protocol=JsonDocument(), out_protocol=JsonDocument())
-                        srv = drv.make_server(app)
+                        a1 = drv.make_server(Application([sv], tns=TNS, name='A%d' % i, in_protocol=JsonDocument(), out_protocol=JsonDocument()))
+                        plan.append((i, a1, 'first application'))
+                    for i, sv in enumerate(svcs):
+                        a2 = drv.make_server(Application([sv], tns=TNS, name='B%d' % i, in_protocol=JsonDocument(), out_protocol=JsonDocument()))
+                        plan.append((i, a2, 'second application over the same class'))
+                        plan.append((i, plan[i][1], 'first application, after a second one was built'))
+                    for i, srv, which in plan:
                         del calls[:]
                         o = drv.call_server(srv, ('{"m%d": {}}' % i).encode('ascii'))
                         ncalls += 1
@@ -482,8 +490,8 @@ def bfs_services(depth, res, shard, only):
                         if got != want or o.escaped is not None:
                             kind = 'leak' if len(got) > len(want) else ('lost' if len(got) < len(want) else 'order')
                             res['violations'].append({'sig': 'C14|service-listeners|%s' % kind,
-                                                      'what': 'after %s a call of service V%d ran %s, the reference model says %s (escaped: %r)' % (
-                                                          h2, i, got, want, o.escaped),
+                                                      'what': 'after %s a call of service V%d (%s) ran %s, the reference model says %s (escaped: %r)' % (
+                                                          h2, i, which, got, want, o.escaped),
                                                       'case': {'shard': shard, 'only': h2}, 'count': 1})
                         else:
                             res['nontrivial'] += 1
